@@ -164,3 +164,52 @@ def strided(a):
     return big[..., ::2]
 
 LAYOUTS = (("fortran-order", fortran), ("strided-view", strided))
+
+
+def check_interleaved(runner, arrays, diff_idx, name, rows, module_cls=None):
+    """build the graph, then run the SAME operation (the same layer object when there is one) again on other inputs, and only
+    then back-propagate the first graph: what a forward saved for its backward must not be disturbed by later calls."""
+    sg = harness.load()
+    viol = []
+    rg = [i in diff_idx for i in range(len(arrays))]
+    captured = []
+    orig = None
+    if module_cls is not None:
+        orig = module_cls.__call__
+        def hook(self, *a, **k):
+            if not captured: captured.append((self, a, k))
+            return orig(self, *a, **k)
+        module_cls.__call__ = hook
+    try:
+        out, ts = runner(arrays, rg)
+    finally:
+        if orig is not None: module_cls.__call__ = orig
+    try:
+        if captured:
+            mod, a, k = captured[0]
+            a2 = [sg.Tensor(np.asarray(x.data) + (0.37 if np.asarray(x.data).dtype.kind == "f" else 0)) if isinstance(x, sg.Tensor) else x for x in a]
+            with quiet_inner():
+                mod(*a2, **k)
+        else:
+            runner([np.asarray(x) + 0.37 if np.asarray(x).dtype.kind == "f" else x for x in arrays], None)
+    except harness.HarnessError:
+        raise
+    except Exception:
+        pass           # the perturbed inputs may leave the op's domain (log of a negative number ...): irrelevant here
+    g = values.dense_g(out.shape)
+    try:
+        out.backward(sg.Tensor(np.asarray(g, dtype=out.dtype if out.dtype.kind == "f" else np.float64)))
+    except Exception as e:
+        return [{"kind": f"{name}:second-call-disturbs-first-graph", "detail": f"backward of the first graph raised after a second call: {type(e).__name__}: {str(e)[:80]}"}]
+    for k_ in diff_idx:
+        exp = rows[k_].T @ np.asarray(g, dtype=np.float64).reshape(-1)
+        gr = ts[k_].grad
+        if gr is None or not fd.close(np.asarray(gr.data, dtype=np.float64).reshape(-1), exp, 1e-9, 1e-11):
+            viol.append({"kind": f"{name}:second-call-disturbs-first-graph", "detail": f"gradient of operand {k_} of the first graph changes when the same "
+                         "operation is applied to other inputs before backward"}); break
+    return viol
+
+import contextlib
+@contextlib.contextmanager
+def quiet_inner():
+    yield
